@@ -1063,7 +1063,7 @@ async def _dead_connection_main(case: dict) -> dict:
 
     loop = asyncio.get_running_loop()
     backend = VerifBackend()
-    res: dict[str, Any] = {"thrown": 0, "thrown_injected": 0, "starved": False, "max_run": 0, "disconnected": [], "handler_errors": []}
+    res: dict[str, Any] = {"thrown": 0, "thrown_injected": 0, "run": 0, "last_tick": -1, "starved": False, "max_run": 0, "disconnected": [], "handler_errors": []}
     FAULTY = 41000
 
     class Handler(AsyncStreamRequestHandler):  # type: ignore[type-arg]
@@ -1073,8 +1073,7 @@ async def _dead_connection_main(case: dict) -> dict:
                 while True:
                     request = yield
                     await client.send_packet(request)
-            last_tick = -1
-            run = 0
+            # (the counters live outside the generator: a handler that *returns* on an error is restarted by the server)
             while True:
                 try:
                     request = yield case["idle_timeout"]
@@ -1089,12 +1088,14 @@ async def _dead_connection_main(case: dict) -> dict:
                     if getattr(exc, "errno", None) is not None:  # (an idle time-out of the yielded timeout carries no errno)
                         res["thrown_injected"] += 1
                     tick = loop.ticks  # type: ignore[attr-defined]
-                    run = run + 1 if tick == last_tick else 1
-                    last_tick = tick
-                    res["max_run"] = max(res["max_run"], run)
-                    if run >= STARVE_LIMIT:
+                    res["run"] = res["run"] + 1 if tick == res["last_tick"] else 1
+                    res["last_tick"] = tick
+                    res["max_run"] = max(res["max_run"], res["run"])
+                    if res["run"] >= STARVE_LIMIT:
                         res["starved"] = True
-                        raise _Starved(f"{run} errors thrown into the handler within one event-loop iteration") from exc
+                        raise _Starved(f"{res['run']} errors thrown into the handler within one event-loop iteration") from exc
+                    if case["handler"] == "return-on-error":
+                        return  # "this request failed": the server starts a fresh generator for the next one
                     continue
                 await client.send_packet(request)
 
@@ -1184,7 +1185,7 @@ FAULTY_PORT_DEAD = 41000
 def st_dead_connection_case(draw: st.DrawFn, tier: str) -> dict:
     return {
         "errno": draw(st.sampled_from(sorted(DEAD_ERRNOS) + sorted(DISCONNECT_ERRORS))),
-        "handler": draw(st.sampled_from(["idle-timeout", "catch-all"])),
+        "handler": draw(st.sampled_from(["idle-timeout", "catch-all", "return-on-error"])),
         "idle_timeout": draw(st.sampled_from([None, 0.5, 5.0])),
         "buffered": draw(st.booleans()),
         "healthy": draw(st.integers(1, 2)),
